@@ -73,6 +73,10 @@ def k_simplex(k: int, id: Any = None,
         # it's an 0-simplex, just create a new one
         c.addSimplex(id=id, attr=attr)
     else:
+        # check the name before creating anything
+        if id is not None and c.representation().containsSimplex(id):
+            raise KeyError(f'Duplicate simplex {id}')
+
         # create a basis of new simplices (avoiding the name requested
         # for the simplex itself)
         bs = []
